@@ -345,7 +345,85 @@ def multi_scope(c):
   return {'y': float(y) == float(yr), 'x_grad': float(xg) == float(xr), 'scope_grads': got == [float(g) for g in wr], 'got': got, 'want': [float(g) for g in wr]}
 
 
+def second_order(c):
+  """the lifted gradient differentiated again: a module returns value + |d value / d x|^2 with the input gradient taken by nn.value_and_grad /
+  nn.grad(has_aux); jax.grad of apply w.r.t. the parameters and the input, and an enclosing nn.vjp over params, equal those of the pure function"""
+  a, b0 = [float(v) for v in c['w']], [float(v) for v in c['b']]
+
+  class Critic(nn.Module):
+    @nn.compact
+    def __call__(self, x):
+      w = self.param('w', lambda k: jnp.asarray(a))
+      b = self.param('b', lambda k: jnp.asarray(b0))
+      n = self.variable('counter', 'calls', lambda: jnp.zeros((), jnp.int32))
+      n.value = n.value + 1
+      return jnp.sum((w * x + b) ** 2 * w)
+
+  class Penalty(nn.Module):
+    has_aux: bool = False
+
+    @nn.compact
+    def __call__(self, x):
+      critic = Critic(name='critic')
+      if self.has_aux:
+        gx, aux = nn.grad(lambda m, x: (m(x), {'twice': 2.0 * x}), critic, x, has_aux=True)
+        val = jnp.sum(aux['twice']) * 0.0 + critic(x)
+        (gx,) = gx
+      else:
+        val, (gx,) = nn.value_and_grad(lambda m, x: m(x), critic, x)
+      return val + jnp.sum(gx ** 2), gx
+
+  class Wrapped(nn.Module):
+    @nn.compact
+    def __call__(self, x):
+      pen = Penalty(name='pen')
+      out, bwd = nn.vjp(lambda m, x: m(x)[0], pen, x, vjp_variables='params')
+      params_t, x_t = bwd(jnp.ones_like(out))
+      return out, params_t, x_t
+
+  def pure_critic(p, x):
+    return jnp.sum((p['w'] * x + p['b']) ** 2 * p['w'])
+
+  def pure_penalty(p, x):
+    val, gx = jax.value_and_grad(pure_critic, argnums=1)(p, x)
+    return val + jnp.sum(gx ** 2), gx
+  x = jnp.asarray([float(v) for v in c['x']])
+  cp = {'w': jnp.asarray(a), 'b': jnp.asarray(b0)}
+  ref_out, ref_gx = pure_penalty(cp, x)
+  ref_p, ref_x = jax.grad(lambda p, x: pure_penalty(p, x)[0], argnums=(0, 1))(cp, x)
+
+  def close(u, v):
+    lu, lv = jax.tree_util.tree_leaves(u), jax.tree_util.tree_leaves(v)
+    return len(lu) == len(lv) and all(np.allclose(np.asarray(p), np.asarray(q), rtol=1e-9, atol=1e-9) for p, q in zip(lu, lv))
+  out = {}
+  for has_aux in (False, True):
+    mdl = Penalty(has_aux=has_aux)
+    variables = mdl.init(jax.random.key(0), x)
+
+    def lifted(p, x, mdl=mdl, variables=variables):
+      (o, gx), upd = mdl.apply({'params': {'critic': p}, 'counter': variables['counter']}, x, mutable=['counter'])
+      return o, (gx, upd)
+    (o, (gx, upd)) = lifted(cp, x)
+    gp, gxx = jax.grad(lambda p, x: lifted(p, x)[0], argnums=(0, 1))(cp, x)
+    out['aux' if has_aux else 'plain'] = {'value': bool(close(o, ref_out)), 'inner_grad': bool(close(gx, ref_gx)), 'outer_grad_params': bool(close(gp, ref_p)),
+                                          'outer_grad_input': bool(close(gxx, ref_x)), 'got_params': [np.asarray(v).tolist() for v in jax.tree_util.tree_leaves(gp)],
+                                          'want_params': [np.asarray(v).tolist() for v in jax.tree_util.tree_leaves(ref_p)]}
+  wv = Wrapped().init(jax.random.key(0), x)
+  (o, pt, xt) = Wrapped().apply({'params': {'pen': {'critic': cp}}, 'counter': wv['counter']}, x, mutable=['counter'])[0]
+  out['enclosing_vjp'] = {'value': bool(close(o, ref_out)), 'params_t': bool(close(pt['params']['critic'] if 'params' in pt else pt, ref_p)), 'x_t': bool(close(xt, ref_x))}
+  return out
+
+
 def main(payload):
+  if 'second_order' in payload:
+    res = []
+    for c in payload['second_order']:
+      try:
+        res.append({'ok': second_order(c)})
+      except Exception as e:  # pylint: disable=broad-except
+        import traceback
+        res.append({'err': type(e).__name__, 'tb': traceback.format_exc()[-800:]})
+    return {'second_order': res}
   if 'multi_scope' in payload:
     res = []
     for c in payload['multi_scope']:
